@@ -250,6 +250,16 @@ def usage_run(k, sit):
         opts += ['--match-out', 'NOT-IN-THE-OUTPUT']
     elif f == 'match-err-absent':
         opts += ['--match-err', 'NOT-IN-THE-OUTPUT']
+    elif f.startswith('golden-timeout'):
+        # every run of the command, the golden one included, exceeds the limit
+        spec['sleep_ms'] = 1500
+        spec['markers'] = ['check-sat']
+        opts += ['--timeout', '0.25', '-j', '4']
+        text = '(declare-const x Int)\n(assert (> x 3))\n(check-sat)\n'
+        if f.endswith('match-out'):
+            opts += ['--match-out', 'bug']
+        elif f.endswith('match-err'):
+            opts += ['--match-err', 'assertion']
     elif f == 'interrupt':
         spec['delay_ms'] = 40
 
@@ -263,7 +273,8 @@ def usage_run(k, sit):
                        popen_hook=hook,
                        mangle=f if f not in ('none', 'interrupt',
                                              'match-out-absent',
-                                             'match-err-absent') else None)
+                                             'match-err-absent') and
+                       not f.startswith('golden-timeout') else None)
     return r
 
 
@@ -312,6 +323,8 @@ def main():
             rp = json.load(f)['replay']
         shapes = [(rp['head'], [tuple(k) for k in rp['kids']])]
         sits = []
+    if os.environ.get('VERIF_C04_ONLY') == 'usage':
+        shapes = shapes[:5]
     if a.tier == 'quick' and not a.replay:
         # all heads with arity <= 1; arity 2 for a seeded third of the heads
         keep = set(r.sample(heads, max(1, len(heads) // 3)))
@@ -344,6 +357,8 @@ def main():
     elif rp.get('command'):
         cmds.add(rp['command'])
     cmds = sorted(cmds)
+    if os.environ.get('VERIF_C04_ONLY') == 'usage':
+        cmds = cmds[:5]
     with multiprocessing.get_context('fork').Pool(12) as pool:
         eres = pool.map(edits_worker, [cmds[i::48] for i in range(48)])
     for ch in eres:
@@ -394,6 +409,15 @@ def main():
                 f'exit status {ur.status}, expected {sit["status"]} '
                 f'({sit["outcome"]}) for {sit}; stdout '
                 f'{ur.stdout.strip()[-120:]!r}', rp)
+        if sit['outcome'] in ('usage', 'nomatch'):
+            ran = len(ur.cmdlog)
+            allowed = 0 if sit['outcome'] == 'usage' else 1
+            if ran > allowed:
+                rep.violation(
+                    f'ran-after-{sit["outcome"]}:{sig}',
+                    f'the command was run {ran} times although the run must '
+                    f'stop {"before any run" if allowed == 0 else "after the golden run"}'
+                    f' for {sit}', rp)
         if sit['outcome'] in ('usage', 'interrupted'):
             lines = [x for x in (ur.stdout + ur.stderr).splitlines()
                      if 'rror' in x or 'interrupted' in x]
